@@ -69,7 +69,16 @@ def functions(toks, implname):
                         k+=1
                     e=match_close(toks,k)
                     ispub = toks[j-1]=='pub'
-                    res[name]=(ispub,toks[k+1:e]); j=e+1
+                    body=toks[k+1:e]
+                    # a parameter of the impl's own type (`other: &Melda`) is the second instance: normalised to the
+                    # name `other`, whatever the source calls it
+                    sig=toks[j+2:k]
+                    for q in range(len(sig)-3):
+                        if sig[q+1]==':' and sig[q+2]=='&' and (sig[q+3]==implname or (sig[q+3]=='mut' and q+4<len(sig) and sig[q+4]==implname)):
+                            pn=sig[q]
+                            if pn not in ('self','other'):
+                                body=['other' if x==pn else x for x in body]
+                    res[name]=(ispub,body); j=e+1
                 else: j+=1
             i=end
         i+=1
@@ -94,21 +103,81 @@ def recv_text(t,i):
         break
     return ''.join(reversed(parts))
 
-def classify(recv):
+FIELDS=(('documents','docs'),('data','data'),('deltas','deltas'),('array_descriptors_cache','acache'),('adapter','adapter'),('cache','dcache'))
+
+def classify(recv, method='lock', ctx=None):
+    """Lock class of the receiver of `.read()` / `.write()` / `.lock()`.
+
+    Decided by what the receiver IS, not by what a local variable happens to be called (a harmless renaming
+    must not change the extracted program):
+      * a field of the replica / the data storage (`self.F`, `other.F`, `<guard>.F`): the class of that field;
+        an unknown field of `self` is UNKNOWN (conflicts with everything: a lock this checker knows nothing about);
+      * a local bound to such a field (`let c = &self.cache`, `self.adapter.clone()`, `data.get_adapter()`): that class;
+      * a local bound to `Mutex::new(..)` in the same function: a function-local mutex;
+      * any other local or expression: the only mutexes that are not fields are the per-object tree mutexes (the
+        values of `documents`), the only read-write locks that are not fields are the per-block locks (the values
+        of `deltas`) - so `.lock()` is a tree lock and `.read()` / `.write()` a block lock."""
+    ctx = ctx or {}
     r=recv
-    inst='other' if r.startswith('other.') else 'self'
-    for f,c in (('documents','docs'),('data','data'),('deltas','deltas'),('array_descriptors_cache','acache'),('adapter','adapter'),('cache','dcache')):
+    inst='other' if r.startswith('other') else 'self'
+    for f,c in FIELDS:
         if r in ('self.'+f,'other.'+f): return (c,inst)
     base=r.split('.')[0]
-    if base in ('rt','rte','mtx'): return ('tree*',inst)
-    if re.match(r'^(docs|docs_r|docs_w|all_docs)\.(get|get_mut)\(\)\??$', r): return ('tree*',inst)
-    if base in ('d',) and r=='d': return ('delta*',inst)
-    if base in ('delta','b','delta_item','deltas_r'): return ('delta*',inst)
-    if base=='c': return ('local',inst)
-    return ('UNKNOWN:'+r,inst)
+    # a path ending in a known field name (`data_w.cache`, `other_data.adapter`)
+    last=r.split('.')[-1]
+    if '.' in r and re.match(r'^[a-z_]\w*$', last):
+        for f,c in FIELDS:
+            if last==f: return (c,inst)
+        if base in ('self','other') and r.count('.')==1:
+            return ('UNKNOWN:'+r,inst)          # a field this checker does not know
+    al=ctx.get('alias',{})
+    if r in al: return (al[r], 'other' if r.startswith('other') else 'self')
+    if r in ctx.get('local_mutex',()): return ('local',inst)
+    if method=='lock': return ('tree*',inst)
+    return ('delta*',inst)
+
+def fn_context(t):
+    """aliases of fields and function-local mutexes, from the `let` statements of one function body"""
+    alias={}; local=set()
+    i=0
+    while i<len(t):
+        if t[i]=='let':
+            j=i+1
+            names=[]
+            while j<len(t) and t[j] not in ('=',';'):
+                if re.match(r'^[a-z_]\w*$',t[j]) and t[j] not in ('mut','ref'): names.append(t[j])
+                j+=1
+            if j<len(t) and t[j]=='=' and names:
+                k=j+1; rhs=[]
+                while k<len(t) and t[k]!=';':
+                    rhs.append(t[k]); k+=1
+                txt=''.join(rhs)
+                name=names[0]
+                if 'Mutex::new' in txt and '.lock' not in txt:
+                    local.add(name)
+                elif 'get_adapter' in txt and not any(m in rhs for m in ('read','write','lock')):
+                    alias[name]='adapter'
+                else:
+                    m=re.match(r'^&?(?:Arc::clone\(&)?(?:self|other)\.([a-z_]+)(?:\.clone\(\))?\)?$', txt)
+                    if m:
+                        for f,c in FIELDS:
+                            if m.group(1)==f: alias[name]=c
+        i+=1
+    # locals that hold a guard of the data storage (`let data_w = self.data.write()...`): method calls on them are
+    # calls of `DataStorage` functions - recognised by the binding, not by the name
+    guards={}
+    for i in range(len(t)-6):
+        if t[i]=='let':
+            j=i+1; names=[]
+            while j<len(t) and t[j] not in ('=',';'):
+                if re.match(r'^[a-z_]\w*$',t[j]) and t[j] not in ('mut','ref'): names.append(t[j])
+                j+=1
+            if j<len(t) and t[j]=='=' and names and j+5<len(t) and t[j+1] in ('self','other') and t[j+2]=='.' and t[j+3]=='data' and t[j+4]=='.' and t[j+5] in ('read','write'):
+                guards[names[0]]=t[j+1]
+    return {'alias':alias,'local_mutex':local,'data_guards':guards}
 
 class P:
-    def __init__(s,fnames,dsnames,infile): s.fn=fnames; s.ds=dsnames; s.infile=infile
+    def __init__(s,fnames,dsnames,infile,ctx=None): s.fn=fnames; s.ds=dsnames; s.infile=infile; s.ctx=ctx or {}
     def block(s,t):
         out=[]; i=0
         while i<len(t):
@@ -176,7 +245,7 @@ class P:
                 if ok:
                     pre=s.expr(rhs[:i-1])
                     if pre: return None
-                    c=classify(recv_text(rhs,i-1)); return (c[0],LOCKM[x],c[1])
+                    c=classify(recv_text(rhs,i-1),x,s.ctx); return (c[0],LOCKM[x],c[1])
                 return None
         return None
     def expr(s,t,pre_par=False):
@@ -219,7 +288,7 @@ class P:
             if x=='drop' and t[i+1]=='(' and t[i+3]==')':
                 ev.append(['drop',t[i+2]]); i+=4; continue
             if x in LOCKM and i>0 and t[i-1]=='.' and t[i+1:i+3]==['(',')']:
-                c=classify(recv_text(t,i-1))
+                c=classify(recv_text(t,i-1),x,s.ctx)
                 ev.append(['acq',c[0],LOCKM[x],c[1],None])
                 i+=3; continue
             if re.match(r'[a-z_]\w*$',x) and i+1<len(t) and t[i+1]=='(' and i>0 and t[i-1]=='.':
@@ -228,7 +297,7 @@ class P:
                 if recv=='self' and x in s.fn and s.infile=='melda': tgt=('M',x,'self')
                 elif recv=='other' and x in s.fn: tgt=('M',x,'other')
                 elif recv=='self' and x in s.ds and s.infile=='ds': tgt=('D',x,'self')
-                elif recv.split('.')[0] in ('data','data_w','data_r','other_data_r') and x in s.ds: tgt=('D',x,'other' if recv.startswith('other') else 'self')
+                elif recv.split('.')[0] in s.ctx.get('data_guards',{}) and x in s.ds: tgt=('D',x,'other' if s.ctx['data_guards'][recv.split('.')[0]]=='other' else 'self')
                 e=match_close(t,i+1)
                 chain_par = any(p in t[:i] for p in ('par_iter','into_par_iter','par_iter_mut'))
                 ev+=s.expr(t[i+2:e], pre_par or chain_par)          # arguments are evaluated before the call
@@ -316,9 +385,9 @@ if __name__=='__main__':
     mf=functions(m,'Melda'); df=functions(d,'DataStorage')
     out={}
     for name,(pub,body) in mf.items():
-        out['M.'+name]={'pub':pub,'body':[b for b in (prune(x) for x in P(set(mf),set(df),'melda').block(body)) if b]}
+        out['M.'+name]={'pub':pub,'body':[b for b in (prune(x) for x in P(set(mf),set(df),'melda',fn_context(body)).block(body)) if b]}
     for name,(pub,body) in df.items():
-        out['D.'+name]={'pub':pub,'body':[b for b in (prune(x) for x in P(set(mf),set(df),'ds').block(body)) if b]}
+        out['D.'+name]={'pub':pub,'body':[b for b in (prune(x) for x in P(set(mf),set(df),'ds',fn_context(body)).block(body)) if b]}
     names=sorted(out)
     idx={n:i for i,n in enumerate(names)}
     # may-acquire table: least fixpoint
